@@ -59,7 +59,7 @@ func exactInts() []int64 {
 var (
 	pExactInts = exactInts()
 	intVias    = []string{"set-path", "set-new", "set-root", "set-in-list", "set-in-assoc", "send-set", "make-bag-native", "make-instance-set",
-		"native-trip", "modify", "modify-as-bag", "get-all-native", "walk", "write-json", "write-sen"}
+		"native-trip", "modify", "modify-as-bag", "get-all-native", "walk", "write-json", "write-sen", "set-in-hash", "copy-as-bag"}
 )
 
 func nIntProbes() int { return len(pExactInts) * len(intVias) }
@@ -412,11 +412,16 @@ func nestedValues() []*Node {
 		nObj().put("o", nObj().put("l", nArr(nInt(1), nArr(nInt(2))))),                                 // map of map of list of list
 		nArr(nInt(0), nArr(nObj().put("p", nObj().put("z", nInt(1))))),                                 // list of list of map of map
 		nObj().put("a", nArr(nArr(nObj().put("p", nInt(1))))).put("b", nObj().put("c", nArr(nInt(1)))), // mixed
+		nObj(),                                   // empty map: nothing to copy, but each match needs its own
+		nObj().put("e", nObj()).put("l", nArr()), // empty containers inside
+		nArr(nObj(), nArr()),                     // list of empty containers
 	}
 }
 
 var pNestedValues = nestedValues()
 
+// inner < 0: a NEW member is created in the object at location -inner-1 of
+// the value (op is set)
 type nestedIdx struct{ form, val, inner, op, target int }
 
 func nestedIndex() []nestedIdx {
@@ -428,6 +433,13 @@ func nestedIndex() []nestedIdx {
 				for op := 0; op < 2; op++ {
 					for t := 0; t < 2; t++ {
 						out = append(out, nestedIdx{f, v, l, op, t})
+					}
+				}
+			}
+			for l, m := range allLocs(val) {
+				if m.node.K == kObj {
+					for t := 0; t < 2; t++ {
+						out = append(out, nestedIdx{f, v, -l - 1, 0, t})
 					}
 				}
 			}
@@ -446,6 +458,9 @@ func nestedProbe(i int) Case {
 	doc := form.doc()
 	val := pNestedValues[ix.val].clone()
 	mode := []string{"lisp", "bag", "text", "stream"}[i%4]
+	if mode == "lisp" && lossyInLisp(val) {
+		mode = "bag"
+	}
 	first := Op{Op: "set", Path: form.path, PStr: form.path.render(1), Val: val, ValMode: mode, Send: i%3 == 0, PObj: i%5 == 0}
 	if mode == "text" || mode == "stream" {
 		first.Op = "parse"
@@ -456,7 +471,12 @@ func nestedProbe(i int) Case {
 		return Case{Kind: "path", Doc: doc, Ops: ops, Probe: "path:nested-copy"}
 	}
 	ms, _ := evalPath(after, form.path)
-	inner := allLocs(val)[1+ix.inner].at
+	var inner loc
+	if ix.inner < 0 {
+		inner = allLocs(val)[-ix.inner-1].at.extend(Step{Key: "zz_new"})
+	} else {
+		inner = allLocs(val)[1+ix.inner].at
+	}
 	target := ms[0]
 	if ix.target == 1 {
 		target = ms[len(ms)-1]
@@ -494,5 +514,9 @@ func randNestedValue(r *rand.Rand) (*Node, string) {
 			}
 		}
 	}
-	return v, fw.Pick(r, []string{"lisp", "lisp", "bag", "text", "stream"})
+	mode := fw.Pick(r, []string{"lisp", "lisp", "bag", "text", "stream"})
+	if mode == "lisp" && lossyInLisp(v) {
+		mode = "bag"
+	}
+	return v, hashMode(r, v, mode)
 }
